@@ -13,7 +13,8 @@ Local Open Scope N_scope.
 Inductive dstep :=
 | DSet (kind ns name : N)
 | DPhase (kind ns name : N)
-| DEnv (objs : list (okey * obj)) (sets : list oset) (gone : list oid).
+| DEnv (objs : list (okey * obj)) (sets : list oset) (gone : list oid) (pgone : list oid) (kgone : list okey).
+  (* objects written, ObjectSets edited, ObjectSets removed, phase objects removed, member objects removed *)
 
 Record dobs := {
   ds_step : dstep; ds_res : sres; ds_events : list sev; ds_rv : N; ds_uid : N;
@@ -37,10 +38,13 @@ Definition flavor_of (annot : bool) (kind : N) : flavor :=
   if kind =? KClusterObjectSetPhase then (if annot then FMultiClusterPhase else FSameClusterPhase)
   else (if annot then FMultiPhase else FSamePhase).
 
-Definition env_apply (sw : sworld) (objs : list (okey * obj)) (sets : list oset) (gone : list oid) (rv uid : N) : sworld :=
-  {| sw_w := {| w_store := fold_left (fun s ko => upsert (fst ko) (snd ko) s) objs (w_store (sw_w sw)); w_rv := rv; w_uid := uid |};
+Definition env_apply (sw : sworld) (objs : list (okey * obj)) (sets : list oset) (gone pgone : list oid) (kgone : list okey)
+           (rv uid : N) : sworld :=
+  {| sw_w := {| w_store := fold_left (fun s k => remove_key k s) kgone
+                             (fold_left (fun s ko => upsert (fst ko) (snd ko) s) objs (w_store (sw_w sw)));
+                w_rv := rv; w_uid := uid |};
      sw_sets := fold_left del_set gone (fold_left put_set sets (sw_sets sw));
-     sw_phases := sw_phases sw; sw_nss := sw_nss sw |}.
+     sw_phases := fold_left del_phase pgone (sw_phases sw); sw_nss := sw_nss sw |}.
 
 (** The class the harness starts the phase controllers for: "default". *)
 Definition DefaultClass : N := 1.
@@ -49,14 +53,14 @@ Definition step_model (force annot : bool) (sw : sworld) (o : dobs) : sworld * l
   match ds_step o with
   | DSet k ns n => objectset_pass force sw k ns n
   | DPhase k ns n => objectsetphase_pass (flavor_of annot k) force DefaultClass sw k ns n
-  | DEnv objs sets gone => (env_apply sw objs sets gone (ds_rv o) (ds_uid o), [], SDone false)
+  | DEnv objs sets gone pgone kgone => (env_apply sw objs sets gone pgone kgone (ds_rv o) (ds_uid o), [], SDone false)
   end.
 
 Definition pre_agrees (sw : sworld) (o : dobs) : bool :=
   match ds_step o with
   | DSet k ns n => option_eqb oset_eqb (find_set (sw_sets sw) k ns n) (ds_pre_set o)
   | DPhase k ns n => option_eqb osphase_eqb (find_phase (sw_phases sw) k ns n) (ds_pre_phase o)
-  | DEnv _ _ _ => true
+  | DEnv _ _ _ _ _ => true
   end.
 
 Definition step_agrees (sw sw' : sworld) (e : list sev) (r : sres) (o : dobs) : bool :=
@@ -251,7 +255,8 @@ Section StepMonitors.
     | _, _ => true
     end.
 
-  (** Teardown: a phase object is deleted only after it was read and found controlled by the ObjectSet; a write
+  (** Teardown: an ObjectSet deleted with orphan propagation deletes nothing; a phase object is deleted only after
+      it was read and found controlled by the ObjectSet; a write
       to phase j happens only after every later delegated phase was seen gone in this pass; the finalizer goes /
       Archived=True is reported only after every delegated phase was seen gone (orphan deletion excepted). *)
   Definition m_teardown : bool :=
@@ -260,6 +265,8 @@ Section StepMonitors.
         negb (is_goingb s) || negb (names_nodup s) ||
         let uid := oi_uid (os_id s) in
         forallb (fun pe => let '(before, e) := pe in
+          (* deleted with orphan propagation: nothing is deleted, neither members nor phase objects (C05) *)
+          (negb (os_orphan s) || match e with SMember _ | SPhase (PDelete _ _) | SPhase (PStrip _ _) => false | _ => true end) &&
           match e with
           | SPhase (PDelete nm _) | SPhase (PStrip nm _) =>
               match last_seen nm before None with Some (Some cur) => controlled_by_uid (op_owners cur) uid | _ => false end
